@@ -229,6 +229,7 @@ impl HCtx {
         let allow: Option<HashSet<Uuid>> = self.allow.clone().map(|v| v.into_iter().map(|c| self.l1.clients[&c]).collect());
         let n = preps.len();
         let mut webs: Vec<WebServer> = vec![];
+        let mut keep_web: Option<WebServer> = None;
         let multi = mode == "multi" && self.l1.backend == Backend::Sqlite;
         struct RmLinks(Vec<std::path::PathBuf>);
         impl Drop for RmLinks {
@@ -262,6 +263,9 @@ impl HCtx {
             for _ in 0..n {
                 webs.push(w.clone());
             }
+            // one process, one server object: the requests that follow the overlap in this case are served by the
+            // server object that served the overlapping ones (the gate lets unscheduled threads through)
+            keep_web = Some(w);
         }
         let now = chrono::Utc::now().timestamp();
         let results: Arc<Mutex<HashMap<usize, std::thread::Result<RawResult>>>> = Arc::new(Mutex::new(HashMap::new()));
@@ -422,6 +426,9 @@ impl HCtx {
         notes.extend(rt_notes.into_inner());
         notes.extend(gate.st.lock().unwrap().events.iter().cloned());
         let mut results = results.lock().unwrap();
+        if let Some(w) = keep_web {
+            self.web = Some(w);
+        }
         self.l1.out.push(format!("OP conc {mode} {n}"));
         self.l1.out.push("R conc".to_string());
         for (tid, prep) in preps.into_iter().enumerate() {
